@@ -16,10 +16,10 @@
 (* Fix: "dupguard"    - the except branch only pops the entry if it is the failed worker  *)
 (*      "closedguard" - add_worker / attach raise on a closed pool                        *)
 (* What-if switches (must be rejected): ReuseKeys (restart keeps the id), NoReinit (run   *)
-(* does not reset retries).                                                               *)
+(* does not reset retries), NoRekey (restart_workers leaves a worker under its old id).   *)
 EXTENDS Naturals, Sequences, FiniteSets, TLC, PoolLifeProps
 
-CONSTANTS Fix, MaxOps, MaxW, Kinds, Plans, Free, ReuseKeys, NoReinit, Hist
+CONSTANTS Fix, MaxOps, MaxW, Kinds, Plans, Free, ReuseKeys, NoReinit, NoRekey, Hist
 
 VARIABLES plan,       \* scenario: [id, force ("none" | "false"), ops]; ops is followed when Free = FALSE
           ws,         \* workers ever created: sequence of [kind, os, stuck, key, owned]
@@ -50,15 +50,16 @@ Init == /\ plan \in Plans /\ ws = <<>> /\ reg = {} /\ closedIds = {} /\ retries 
 
 \* the observables of a completed operation; wsx, regx = workers and registry AFTER the operation
 Obs(op, outcome, closing, extra, dgw, rnw, wsx, regx) ==
-   [op |-> op, outcome |-> outcome, closing |-> closing, alive_owned |-> AliveOwnedOf(wsx), live_unreg |-> LiveUnregOf(wsx, regx),
-    extra |-> extra, dead_got_work |-> dgw, restarted_no_work |-> rnw]
+   [op |-> op, outcome |-> outcome, closing |-> closing, alive_owned |-> AliveOwnedOf(wsx),
+    live_unreg |-> IF LiveUnregOf(wsx, regx) > LiveUnregOf(ws, reg) THEN LiveUnregOf(wsx, regx) - LiveUnregOf(ws, reg) ELSE 0,   \* caused by THIS call
+    extra |-> extra, dead_got_work |-> dgw, restarted_no_work |-> rnw, spoiled |-> 0]
 Done(name, o) ==
    /\ nops' = nops + 1
    /\ steps' = IF Hist THEN Append(steps, o) ELSE <<o>>
    /\ h' = IF Hist THEN Append(h, name) ELSE h
 Simple(name, op, outcome, wsx, regx) == Done(name, Obs(op, outcome, "F", 0, 0, 0, wsx, regx))
 Idle == pc = "idle" /\ (IF Free THEN nops < MaxOps ELSE Len(h) < Len(plan.ops))
-NewW(kind, key, owned) == [kind |-> kind, os |-> "alive", stuck |-> FALSE, key |-> key, owned |-> owned]
+NewW(kind, key, owned) == [kind |-> kind, os |-> "alive", stuck |-> FALSE, key |-> key, regkey |-> key, owned |-> owned]
 
 AddLike(name, op, kind) ==
   /\ Idle /\ Go(name) /\ Len(ws) < MaxW
@@ -84,7 +85,7 @@ AddDup(o) ==                                \* the new worker's id collides with
 
 \* workers that run() would wait for forever: the harness never calls run then
 Blocking == \E w \in RegW : Alive(w) /\ ws[w].stuck /\ ws[w].key \notin closedIds
-Usable(w) == w \in RegW /\ ws[w].key \notin closedIds
+Usable(w) == w \in RegW /\ ws[w].key \notin closedIds          \* run() looks at worker.id, the registry key only matters for results
 Run(poison) ==
   /\ Idle /\ ~Blocking /\ Go(IF poison THEN "runp" ELSE "run")
   /\ LET name == IF poison THEN "runp" ELSE "run" IN
@@ -98,13 +99,16 @@ Run(poison) ==
               deadw  == {w \in W : Usable(w) /\ ~Alive(w)}         \* found dead at the first enqueue
               stale  == IF NoReinit THEN retries ELSE {}            \* run re-initialises _retries (pool.py:242)
               rnw    == Cardinality({w \in restarted : w \in RegW /\ Alive(w) /\ w \notin got})
-              wsx    == IF poison THEN [w \in W |-> IF w \in got THEN [ws[w] EXCEPT !.os = "dead"] ELSE ws[w]] ELSE ws
+              pz     == poison \/ stale # {}                       \* a stale poison input is retried first and kills like a fresh one
+              wsx    == IF pz THEN [w \in W |-> IF w \in got THEN [ws[w] EXCEPT !.os = "dead"] ELSE ws[w]] ELSE ws
+              misfiled == \E w \in got : ws[w].regkey # ws[w].key      \* results arrive under an id the registry does not know: assert fails
           IN /\ nrun' = nrun + 1
-             /\ closedIds' = closedIds \cup {ws[w].key : w \in deadw} \cup (IF poison THEN {ws[w].key : w \in got} ELSE {})
+             /\ closedIds' = closedIds \cup {ws[w].key : w \in deadw} \cup (IF pz THEN {ws[w].key : w \in got} ELSE {})
              /\ ws' = wsx
-             /\ retries' = IF poison /\ got # {} THEN stale \cup {nrun + 1} ELSE (IF got = {} THEN stale ELSE {})
+             /\ retries' = IF pz /\ got # {} THEN stale \cup {nrun + 1} ELSE (IF got = {} THEN stale ELSE {})
              /\ restarted' = {}
-             /\ Done(name, Obs(name, IF poison \/ got = {} THEN "raised" ELSE "ok", "F", Cardinality(stale), 0, rnw, wsx, reg))
+             /\ Done(name, [Obs(name, IF pz \/ got = {} \/ misfiled THEN "raised" ELSE "ok", "F", Cardinality(stale), 0, rnw, wsx, reg)
+                             EXCEPT !.spoiled = IF misfiled /\ ~pz THEN 1 ELSE 0])
   /\ UNCHANGED <<plan, reg, poolClosed, nextKey, pc, todo, graceful>>
 
 \* restart_workers: every registered worker, in dict order; a stuck thread worker cannot be stopped -> RuntimeError, the rest is skipped
@@ -116,8 +120,9 @@ RestartAll(ks, wsx, regx, nk) ==
        IF wsx[w].kind = "thread" /\ wsx[w].stuck /\ wsx[w].os = "alive"
        THEN [ws |-> wsx, reg |-> regx, nk |-> nk, ok |-> FALSE, done |-> {}]
        ELSE LET newk == IF ReuseKeys THEN k ELSE nk
-                r == RestartAll(Tail(ks), [wsx EXCEPT ![w] = [@ EXCEPT !.os = "alive", !.stuck = FALSE, !.key = newk]],
-                                (regx \ {<<k, w>>}) \cup {<<newk, w>>}, nk + 1)
+                r == RestartAll(Tail(ks), [wsx EXCEPT ![w] = [@ EXCEPT !.os = "alive", !.stuck = FALSE, !.key = newk,
+                                                                               !.regkey = IF NoRekey THEN @ ELSE newk]],
+                                IF NoRekey THEN regx ELSE (regx \ {<<k, w>>}) \cup {<<newk, w>>}, nk + 1)
             IN [r EXCEPT !.done = @ \cup {w}]
 RECURSIVE SortedKeys(_)
 SortedKeys(S) == IF S = {} THEN <<>> ELSE LET m == CHOOSE x \in S : \A y \in S : x <= y IN <<m>> \o SortedKeys(S \ {m})
